@@ -212,7 +212,9 @@ func RestFunction(env *Zlisp, name string, args []Sexp) (Sexp, error) {
 		if len(expr.Val) == 0 {
 			return expr, nil
 		}
-		return &SexpArray{Val: expr.Val[1:], Env: env, Typ: expr.Typ}, nil
+		// copy: a slice of expr.Val would share storage with the argument, so that
+		// (aset (rest a) 0 x) changed a, and (aset a 1 x) changed an earlier (rest a).
+		return &SexpArray{Val: append([]Sexp(nil), expr.Val[1:]...), Env: env, Typ: expr.Typ}, nil
 	case *SexpSentinel:
 		if expr == SexpNull {
 			return SexpNull, nil
